@@ -171,6 +171,9 @@ func (fl *c09Flow) obj(e ast.Expr) types.Object { return fl.st.ObjOf(e) }
 // roleOf returns the role tag of the variable denoted by e under s.
 func (fl *c09Flow) roleOf(e ast.Expr, s kit.S) string {
 	e = fl.st.Resolve(e)
+	if k := fl.fieldKey(e); k != "" {
+		return s.Get("ro:" + k)
+	}
 	if _, ok := ast.Unparen(e).(*ast.Ident); !ok {
 		return ""
 	}
@@ -179,6 +182,131 @@ func (fl *c09Flow) roleOf(e ast.Expr, s kit.S) string {
 		return ""
 	}
 	return s.Get("ro:" + kit.VarID(o))
+}
+
+// fieldKey names the field `v.f` of a struct-valued local v ("" = e is not of
+// that form): a helper may hand several results back in one small struct
+// (`creds, ok := h.authorize(req)` … `creds.userID`), and the roles / boolean
+// values of the fields travel under "ro:<v>.<f>" / "fv:<v>.<f>".
+func (fl *c09Flow) fieldKey(e ast.Expr) string {
+	sel, ok := ast.Unparen(e).(*ast.SelectorExpr)
+	if !ok {
+		return ""
+	}
+	fld, ok := kit.ObjOf(fl.info, sel).(*types.Var)
+	if !ok || !fld.IsField() {
+		return ""
+	}
+	x := fl.st.Resolve(sel.X)
+	if _, ok := ast.Unparen(x).(*ast.Ident); !ok {
+		return ""
+	}
+	v, ok := kit.ObjOf(fl.info, x).(*types.Var)
+	if !ok || v.IsField() {
+		return ""
+	}
+	if _, isStruct := v.Type().Underlying().(*types.Struct); !isStruct {
+		return ""
+	}
+	if !c09Simple(fl.f, v) || !c09Simple(fl.cur(), v) {
+		return ""
+	}
+	return kit.VarID(v) + "." + fld.Name()
+}
+
+// untracedField reports whether e is a field of a struct value whose origin
+// the flow did not follow (not the result of an inlined callee, not assigned
+// on this path): nothing is known about it, in either direction.
+func (fl *c09Flow) untracedField(e ast.Expr, s kit.S) bool {
+	e = ast.Unparen(fl.st.Resolve(e))
+	sel, ok := e.(*ast.SelectorExpr)
+	if !ok {
+		return false
+	}
+	if fld, ok := kit.ObjOf(fl.info, sel).(*types.Var); !ok || !fld.IsField() {
+		return false
+	}
+	k := fl.fieldKey(e)
+	if k == "" {
+		return true
+	}
+	return !s.Has("fw:"+k) && !s.Has("ft:"+k[:strings.LastIndex(k, ".")])
+}
+
+// dropFields forgets what is known about the fields of the struct local o.
+func c09DropFields(s kit.S, o types.Object) kit.S {
+	s = s.Del("ft:" + kit.VarID(o))
+	for _, pre := range []string{"ro:", "fv:", "fw:"} {
+		p := pre + kit.VarID(o) + "."
+		for _, k := range s.Keys() {
+			if strings.HasPrefix(k, p) {
+				s = s.Del(k)
+			}
+		}
+	}
+	return s
+}
+
+// structResult records, at a return statement of an inlined callee, what the
+// fields of a struct-valued result hold: a composite literal (omitted fields
+// are zero), or a struct local whose fields are known.
+func (fl *c09Flow) structResult(s kit.S, key string, e ast.Expr) kit.S {
+	t := fl.info.TypeOf(e)
+	if t == nil {
+		return s
+	}
+	st, ok := t.Underlying().(*types.Struct)
+	if !ok {
+		return s
+	}
+	e = ast.Unparen(e)
+	if id, ok := e.(*ast.Ident); ok {
+		if o, ok := kit.ObjOf(fl.info, id).(*types.Var); ok && !o.IsField() {
+			for i := 0; i < st.NumFields(); i++ {
+				n := st.Field(i).Name()
+				if r := s.Get("ro:" + kit.VarID(o) + "." + n); r != "" {
+					s = s.Set("rr:"+key+"."+n, r)
+				}
+				if b := s.Get("fv:" + kit.VarID(o) + "." + n); b != "" {
+					s = s.Set("rb:"+key+"."+n, b)
+				}
+			}
+		}
+		return s
+	}
+	lit, ok := e.(*ast.CompositeLit)
+	if !ok {
+		return s
+	}
+	vals := map[string]ast.Expr{}
+	for i, el := range lit.Elts {
+		if kv, ok := el.(*ast.KeyValueExpr); ok {
+			if id, ok := kv.Key.(*ast.Ident); ok {
+				vals[id.Name] = kv.Value
+			}
+		} else if i < st.NumFields() {
+			vals[st.Field(i).Name()] = el
+		}
+	}
+	for i := 0; i < st.NumFields(); i++ {
+		n := st.Field(i).Name()
+		v, given := vals[n]
+		isBool := c09IsBool(st.Field(i).Type())
+		switch {
+		case !given && isBool:
+			s = s.Set("rb:"+key+"."+n, "false")
+		case !given:
+		default:
+			if r := fl.roleOf(v, s); r != "" {
+				s = s.Set("rr:"+key+"."+n, r)
+			} else if isBool {
+				if c, ok := fl.st.FoldExpr(fl.st.Resolve(v), s); ok && c.Kind() == constant.Bool {
+					s = s.Set("rb:"+key+"."+n, fmt.Sprint(constant.BoolVal(c)))
+				}
+			}
+		}
+	}
+	return s
 }
 
 // writes lists the captured variables a local closure assigns.
@@ -207,6 +335,9 @@ func (fl *c09Flow) writes(cf *kit.Func) []types.Object {
 }
 
 func (fl *c09Flow) setRole(s kit.S, l ast.Expr, role string) kit.S {
+	if k := fl.fieldKey(l); k != "" {
+		return s.Set("ro:"+k, role)
+	}
 	if _, isID := ast.Unparen(l).(*ast.Ident); !isID {
 		return s
 	}
@@ -224,7 +355,12 @@ func (fl *c09Flow) clearAssigned(n ast.Node, s kit.S) kit.S {
 		if _, isID := ast.Unparen(e).(*ast.Ident); isID {
 			if o := kit.ObjOf(fl.info, e); o != nil {
 				s = s.Del("ro:" + kit.VarID(o))
+				s = c09DropFields(s, o)
 			}
+		}
+		// `v.f = …`
+		if k := fl.fieldKey(e); k != "" {
+			s = s.Del("ro:"+k).Del("fv:"+k).Set("fw:"+k, "1")
 		}
 	}
 	switch x := n.(type) {
@@ -284,11 +420,34 @@ func (fl *c09Flow) tag(s kit.S, lhs []ast.Expr, call *ast.CallExpr) kit.S {
 			if r := s.Get(fmt.Sprintf("rr:%d:%d", cf.Pos(), i)); r != "" {
 				s = fl.setRole(s, l, r)
 			}
+			s = fl.tagFields(s, l, fmt.Sprintf("%d:%d.", cf.Pos(), i))
 			if b := s.Get(fmt.Sprintf("rb:%d:%d", cf.Pos(), i)); b != "" {
 				if o := kit.ObjOf(fl.info, l); o != nil && c09IsBool(o.Type()) {
 					s = s.Set("v:"+kit.VarID(o), b)
 				}
 			}
+		}
+	}
+	return s
+}
+
+// tagFields gives the struct local l the field roles / values an inlined
+// callee returned under the result key.
+func (fl *c09Flow) tagFields(s kit.S, l ast.Expr, key string) kit.S {
+	if _, isID := ast.Unparen(l).(*ast.Ident); !isID {
+		return s
+	}
+	o, ok := kit.ObjOf(fl.info, l).(*types.Var)
+	if !ok || o.IsField() || !c09Simple(fl.cur(), o) {
+		return s
+	}
+	s = s.Set("ft:"+kit.VarID(o), "1")
+	for _, k := range s.Keys() {
+		switch {
+		case strings.HasPrefix(k, "rr:"+key):
+			s = s.Set("ro:"+kit.VarID(o)+"."+k[len("rr:"+key):], s.Get(k))
+		case strings.HasPrefix(k, "rb:"+key):
+			s = s.Set("fv:"+kit.VarID(o)+"."+k[len("rb:"+key):], s.Get(k))
 		}
 	}
 	return s
@@ -320,7 +479,7 @@ func (fl *c09Flow) onReturn(r *ast.ReturnStmt, s kit.S) []kit.S {
 	lo, hi := cf.Node().Pos(), cf.Node().End()
 	for i, x := range states {
 		for _, k := range x.Keys() {
-			if !strings.HasPrefix(k, "ro:") {
+			if !strings.HasPrefix(k, "ro:") && !strings.HasPrefix(k, "fv:") && !strings.HasPrefix(k, "fw:") && !strings.HasPrefix(k, "ft:") {
 				continue
 			}
 			var pos int
@@ -382,6 +541,7 @@ func (fl *c09Flow) onReturn0(r *ast.ReturnStmt, s kit.S) []kit.S {
 			if role := fl.roleOf(e, x); role != "" {
 				x = x.Set(key("rr", i), role)
 			}
+			x = fl.structResult(x, fmt.Sprintf("%d:%d", cf.Pos(), i), e)
 			t := fl.info.TypeOf(e)
 			if t == nil || !c09IsBool(t) {
 				next = append(next, x)
@@ -601,6 +761,11 @@ func (fl *c09Flow) client() kit.Client {
 						// plain copies carry the role along: `valid, uid = ok, id`
 						if i < len(rhsRoles) && rhsRoles[i] != "" {
 							y = fl.setRole(y, l, rhsRoles[i])
+						} else if k := fl.fieldKey(l); k != "" {
+							// `v.f = true`
+							if v, ok := fl.st.FoldExpr(fl.st.Resolve(x.Rhs[i]), y); ok && v.Kind() == constant.Bool {
+								y = y.Set("fv:"+k, fmt.Sprint(constant.BoolVal(v)))
+							}
 						}
 						next = append(next, fl.forkBool(y, l, x.Rhs[i])...)
 					}
@@ -660,6 +825,15 @@ func (fl *c09Flow) client() kit.Client {
 				case "false":
 					return nil, []kit.S{s}, true
 				}
+			}
+		}
+		// a boolean field of a struct local whose value an inlined callee fixed
+		if k := fl.fieldKey(fl.st.Resolve(e)); k != "" && fl.roleOf(e, s) == "" {
+			switch s.Get("fv:" + k) {
+			case "true":
+				return []kit.S{s}, nil, true
+			case "false":
+				return nil, []kit.S{s}, true
 			}
 		}
 		if id, neg, ok := atomAt(e, s); ok {
@@ -1827,10 +2001,12 @@ func (a *c09Anchors) runGate(f *kit.Func) *c09Gate {
 				listSeen[call] = lc
 				a.listCalls = append(a.listCalls, lc)
 			}
-			if fl.roleOf(call.Args[1], s) != "uid" && lc.bad == "" {
+			murky := s.Get("opq:uid") == "1" || s.Get("opq:auth") == "1" || fl.untracedField(call.Args[1], s)
+			// a definite finding on a later path replaces a murky one
+			if fl.roleOf(call.Args[1], s) != "uid" && (lc.bad == "" || (lc.murky && !murky)) {
 				lc.bad = fmt.Sprintf("%s at %s lists the nodes of `%s`, which on some path is not the user id returned by the JWT validator: a valid user can read another user's subtrees",
 					a.listFn.Name, cur.At(call), cur.Str(call.Args[1]))
-				lc.murky = s.Get("opq:uid") == "1" || s.Get("opq:auth") == "1"
+				lc.murky = murky
 			}
 		}
 		// status 401 written to this request's ResponseWriter
